@@ -2,6 +2,7 @@ package type1
 
 import (
 	"crypto/rand"
+	"crypto/sha256"
 
 	"github.com/cloudflare/circl/oprf"
 )
@@ -49,3 +50,47 @@ func VerifC11_type1_fixed_blind() {
 		vReach("two-blinds")
 	}
 }
+
+// The caller may reuse its argument buffers as soon as request creation has returned: the
+// finalized token still carries the nonce, digest and key id the request was created with.
+func VerifC11_type1_arguments_not_retained() {
+	vUnwind(8)
+	key, err := oprf.GenerateKey(oprf.SuiteP384, rand.Reader)
+	vAssume(err == nil)
+	issuer := NewBasicPrivateIssuer(key)
+	challenge := vBytesC("challenge", 1, 2)
+	nonce := vBytes("nonce", 32, 32)
+	keyID := issuer.TokenKeyID()
+	blind := vBytes("blind", 48, 48)
+	nonce0, keyID0, challenge0 := append([]byte{}, nonce...), append([]byte{}, keyID...), append([]byte{}, challenge...)
+	var st BasicPrivateTokenRequestState
+	if vBool("fixed_blind") {
+		st, err = NewBasicPrivateClient().CreateTokenRequestWithBlind(challenge, nonce, keyID, issuer.TokenKey(), blind)
+	} else {
+		st, err = NewBasicPrivateClient().CreateTokenRequest(challenge, nonce, keyID, issuer.TokenKey())
+	}
+	if err != nil {
+		vReach("refused")
+		return
+	}
+	// the caller's buffers are reused for something else
+	copy(nonce, vBytes("garbage_nonce", 32, 32))
+	copy(keyID, vBytes("garbage_key_id", 32, 32))
+	copy(challenge, vBytes("garbage_challenge", 2, 2))
+	copy(blind, vBytes("garbage_blind", 48, 48))
+	resp, err := issuer.Evaluate(st.Request())
+	vAssume(err == nil)
+	tok, err := st.FinalizeToken(resp)
+	vAssert(err == nil, "finalizes")
+	if err != nil {
+		return
+	}
+	vAssert(vBytesEq(tok.Nonce, nonce0), "token-carries-the-original-nonce")
+	vAssert(vBytesEq(tok.KeyID, keyID0), "token-carries-the-original-key-id")
+	ctx := c11Digest(challenge0)
+	vAssert(vBytesEq(tok.Context, ctx), "token-carries-the-original-challenge-digest")
+	vAssert(issuer.Verify(tok) == nil, "token-verifies")
+	vReach("finalized")
+}
+
+func c11Digest(b []byte) []byte { d := sha256.Sum256(b); return d[:] }
